@@ -42,12 +42,17 @@ func refSplit(s, sep string) []string {
 
 func refCase(s string, upper bool) string {
 	var sb strings.Builder
-	for _, r := range s {
-		if upper {
+	for i := 0; i < len(s); {
+		r, size := utf8.DecodeRuneInString(s[i:])
+		switch {
+		case r == utf8.RuneError && size == 1:
+			sb.WriteByte(s[i]) // not a character: kept as it is
+		case upper:
 			sb.WriteRune(unicode.ToUpper(r))
-		} else {
+		default:
 			sb.WriteRune(unicode.ToLower(r))
 		}
+		i += size
 	}
 	return sb.String()
 }
@@ -91,6 +96,9 @@ func (m *Model) callNative(callee Val, args []Val, recvExpr Expr) (Val, bool) {
 	case "num":
 		if len(args) != 1 {
 			m.fail("expected 1 argument(s)")
+		}
+		if args[0].K == KNum && args[0].N == math.Trunc(args[0].N) && !math.IsInf(args[0].N, 0) {
+			return mNum(args[0].N + 0), false // a whole number is that number, however large (null or the number for a fraction is [P])
 		}
 		if args[0].K != KStr {
 			m.tag("pinned:num-of-nonstring")
@@ -157,7 +165,7 @@ func (m *Model) callNative(callee Val, args []Val, recvExpr Expr) (Val, bool) {
 		}
 		for _, e := range recv.A.E {
 			if e.V.K == KUnset || args[0].K == KUnset {
-				m.tag("pinned:contains-unset")
+				continue // contains agrees with ==, and == is false when either side is unset
 			}
 			if m.compare(args[0], e.V) == 0 {
 				return mBool(true), false
@@ -259,9 +267,6 @@ func (m *Model) callNative(callee Val, args []Val, recvExpr Expr) (Val, bool) {
 	case "string.upper", "string.lower":
 		if len(args) > 0 {
 			m.tag("pinned:surplus-args")
-		}
-		if !utf8.ValidString(recv.S) {
-			m.tag("pinned:invalid-utf8")
 		}
 		return mStr(refCase(recv.S, name == "string.upper")), false
 	case "number.floor", "number.ceil", "number.round":
